@@ -158,6 +158,8 @@ def run_shard(shard, ctx):
             ctx.count('generic_executions')
             if not cached_before:
                 ctx.count('distinct_generated_functions')
+            ctx.distinct('key_pattern_pairs_executed', (name, kx, ky))
+            ctx.distinct('algebra_configurations', name)
             if tuple(sorted(kx)) != tuple(kx) or tuple(sorted(ky)) != tuple(ky):
                 ctx.count('permuted_order_cases')
             if not kx or not ky:
